@@ -8,6 +8,8 @@ import SwcVerif.Props.C15
 #print axioms C15.bad_point_rejected
 #print axioms C15.unbracketed_point_rejected
 #print axioms C15.node_error_propagates
-#print axioms C15.truncation_rejected_partial
+#print axioms C15.truncation_rejected_body
+#print axioms C15.header_truncation_rejected
+#print axioms C15.truncation_rejected
 #print axioms C15.lex_skips_blanks
 #print axioms C15.lex_structural
